@@ -28,6 +28,7 @@ func OrderCase(r *sim.R, k int, run Scheduler, errKind func(error) string) {
 	failing := 0
 	kinds := map[EKind]bool{}
 	absorbed := false
+	altAbsorbed := false
 	for _, p := range e.settingNames() {
 		e.begin(true)
 		o, _ := e.modelOf(p)
@@ -38,12 +39,15 @@ func OrderCase(r *sim.R, k int, run Scheduler, errKind func(error) string) {
 		if e.sawAbsorb {
 			absorbed = true
 		}
-	}
-	detail := map[string]string{"absorbed_cycle": fmt.Sprint(absorbed), "overlap": "false"}
-	if absorbed {
-		if r.Avoid["O21"] {
-			return
+		if e.sawAltAbsorb {
+			altAbsorbed = true
 		}
+	}
+	detail := map[string]string{"absorbed_cycle": fmt.Sprint(absorbed), "alt_absorbed_cycle": fmt.Sprint(altAbsorbed), "overlap": "false"}
+	if altAbsorbed && r.Avoid["O21"] {
+		return
+	}
+	if absorbed {
 		r.Fault("cycle absorbed by a default / resolver inside a whole-config read")
 	}
 	if failing > 0 {
